@@ -128,3 +128,22 @@ fn extract_range_1_3_of_4() {
     let r = super::extract_range(&v, nalgebra::Dyn(1), nalgebra::Dyn(3));
     assert!(r.len() == 2 && r[0] == a[1] && r[1] == a[2]);
 }
+
+/// the two `CastF64` impls (src/statistics/numeric_traits) that the Verus prelude assumes to be value-preserving casts:
+/// loop-free, complete over all f64 / f32 bit patterns. `from_f64` is the IEEE conversion to the scalar type (the identity
+/// for f64), `into_f64` is exact, ZERO and ONE are 0 and 1.
+#[kani::proof]
+fn castf64_impls_are_plain_casts() {
+    use super::numeric_traits::CastF64;
+    let v: f64 = kani::any();
+    assert!(<f64 as CastF64>::from_f64(v).to_bits() == v.to_bits());
+    assert!(<f64 as CastF64>::into_f64(v).to_bits() == v.to_bits());
+    assert!(<f32 as CastF64>::from_f64(v).to_bits() == (v as f32).to_bits());
+    let w: f32 = kani::any();
+    assert!(<f32 as CastF64>::into_f64(w).to_bits() == (w as f64).to_bits());
+    // the widening cast is exact: narrowing it again gives the same f32 (for every non-NaN value)
+    kani::assume(!w.is_nan());
+    assert!((<f32 as CastF64>::into_f64(w) as f32).to_bits() == w.to_bits());
+    assert!(<f64 as CastF64>::ZERO.to_bits() == 0.0f64.to_bits() && <f64 as CastF64>::ONE == 1.0f64);
+    assert!(<f32 as CastF64>::ZERO.to_bits() == 0.0f32.to_bits() && <f32 as CastF64>::ONE == 1.0f32);
+}
